@@ -2,6 +2,23 @@ use hcv::engine::*;
 use std::sync::Arc;
 use std::time::{Duration, Instant};
 
+/// Replays one case on a helper thread; a case that does not return within the deadline is a
+/// non-termination violation (a hang must fail the check, not hang it).
+fn replay_with_deadline(sec: Box<dyn AnySection>, case: serde_json::Value, secs: u64) -> Result<CaseOut, String> {
+    let (tx, rx) = std::sync::mpsc::channel();
+    std::thread::Builder::new()
+        .stack_size(64 << 20)
+        .spawn(move || {
+            let r = sec.replay(&case);
+            let _ = tx.send(r);
+        })
+        .map_err(|e| e.to_string())?;
+    match rx.recv_timeout(Duration::from_secs(secs)) {
+        Ok(r) => r,
+        Err(_) => Ok(CaseOut::fail("replay:nontermination", format!("the replayed case returns within {secs} s"), "still running at the deadline")),
+    }
+}
+
 fn usage() -> ! {
     eprintln!("usage: hcv <ID> quick|thorough | hcv <ID> --replay FILE | hcv --selftest | hcv --list");
     std::process::exit(2)
@@ -59,7 +76,7 @@ fn main() {
             eprintln!("section {section} not found for {id}");
             std::process::exit(2)
         };
-        match sec.replay(&doc["case"]) {
+        match replay_with_deadline(sec, doc["case"].clone(), 120) {
             Ok(out) => match out.verdict {
                 Verdict::Fail(f) => {
                     println!("VIOLATION property={} replay={}", id, path);
@@ -111,11 +128,11 @@ fn main() {
                 continue;
             };
             let section = doc["section"].as_str().unwrap_or("");
-            let Some(sec) = secs.iter().find(|s| s.name() == section) else {
+            let Some(sec) = hcv::props::sections(&id, &cfg).unwrap_or_default().into_iter().find(|s| s.name() == section) else {
                 rep.machinery_error(format!("replay {}: section {section} does not exist", f.display()));
                 continue;
             };
-            match sec.replay(&doc["case"]) {
+            match replay_with_deadline(sec, doc["case"].clone(), 60) {
                 Ok(out) => {
                     n += 1;
                     rep.record(section, h64(&f.display().to_string()), || doc["case"].clone(), &out);
